@@ -282,6 +282,6 @@ impl Area for RegArea {
             }
         }
         stats.seen(lines, nreg_ok >= 2 && nreg_err >= 1);
-        ExecOut { outs, fails }
+        ExecOut { outs, fails, model_lines: None }
     }
 }
